@@ -170,6 +170,17 @@ def print_assumptions(prop, names):
     return {k: "\n".join(v).strip() for k, v in res.items()}, out
 
 
+def coqchk(prop):
+    """independent re-check of the compiled closure of props/<prop>.vo (thorough tier): returns
+    (ok, summary text).  Axioms must be <none>."""
+    rc, out = sh(["timeout", "1500", "coqchk", "-silent", "-o", "-Q", COQ, "HD", f"HD.props.{prop}"], cwd=COQ)
+    i = out.find("CONTEXT SUMMARY")
+    summary = out[i:].strip() if i >= 0 else out[-1500:]
+    ok = rc == 0 and "* Axioms: <none>" in summary and "type-in-type: <none>" in summary \
+        and "unsafe (co)fixpoints: <none>" in summary and "positivity is assumed: <none>" in summary
+    return ok, re.sub(r"\s+", " ", summary)
+
+
 def proofs(prop):
     """Build + audit the proof leg. Returns dict with obligations/discharged/details."""
     t0 = time.time()
@@ -498,6 +509,13 @@ def run_check(plugin, tier=None, replay=None):
 
     pinfo = proofs(prop)
     log(f"{prop}: proofs {pinfo['discharged']}/{pinfo['obligations']} discharged, build_ok={pinfo['build_ok']}")
+    if tier == "thorough" and pinfo["build_ok"] and not replay:
+        ok, summary = coqchk(prop)
+        pinfo["coqchk"] = summary
+        log(f"{prop}: coqchk {'ok' if ok else 'FAILED'}")
+        if not ok:
+            pinfo["failed"] = sorted(set(pinfo["failed"]) | {"<coqchk>"})
+            pinfo["discharged"] = 0
 
     harness_build(plugin.harness_bin)
     for b in getattr(plugin, "extra_bins", ()):
@@ -627,6 +645,7 @@ def run_check(plugin, tier=None, replay=None):
         "model_impl_mismatches": len(mism), "monitor_rejections": len(monf),
         "input_distribution": plugin.histogram(cases, obss),
         "source_audit": pinfo["audit"], "proof_wall_s": pinfo.get("wall_s"),
+        "audited_files": pinfo.get("audited_files"), "coqchk": pinfo.get("coqchk"),
     }
     coverage.update(gen_meta.get("extra", {}))
     wall = time.time() - t0
